@@ -84,6 +84,7 @@ def run(chk):
     grids = [g for g in corpus.get(tier=chk.tier)]
     n = 0
     worst = {}
+    wseg = 0.0
     for g in grids:
         if not g.ok or g.cfg["kind"] != "tokamak" or not g.d["mesh"]["user_options"].get("orthogonal", True):
             continue
@@ -119,7 +120,25 @@ def run(chk):
             for nm in ("g12", "g13", "g_12", "g_13"):
                 if any(np.any(v != 0) for v in r["arrays"][nm].values()):
                     chk.fail("g12-nonzero", f"{nm} is not identically zero on an orthogonal grid", {"grid": g.name, "region": r["name"]})
+        # the radial segments of one equilibrium region (private flux / SOL side of a leg, core / SOL of the main plasma) continue ONE radial grid line across
+        # the separatrix: they are integral curves through the SAME skeleton point, so the x-faces and corners on their shared flux surface coincide
+        byseg = {(r["eqname"], r["radialIndex"]): r for r in g.d["regions"].values()}
+        for (nm, k), r in byseg.items():
+            nxt = byseg.get((nm, k + 1))
+            if nxt is None:
+                continue
+            for loc in ("xlow", "corners"):
+                a = np.stack([r["arrays"]["Rxy"][loc][-1, :], r["arrays"]["Zxy"][loc][-1, :]])
+                b = np.stack([nxt["arrays"]["Rxy"][loc][0, :], nxt["arrays"]["Zxy"][loc][0, :]])
+                d = np.hypot(*(a - b))
+                n += d.size
+                wseg = max(wseg, float(d.max()))
+                if d.max() > 1e-6:
+                    j = int(np.argmax(d))
+                    chk.fail("radial-line-broken-at-separatrix", "the radial grid line through one skeleton point jumps sideways where two radial segments of a region meet: the points sharing a poloidal index are not on one integral curve through the separatrix skeleton",
+                             {"grid": g.name, "region": nm, "radial_segments": [k, k + 1], "location": loc, "poloidal_index": j, "jump_m": float(d[j])})
         worst[g.name] = float(f"{w:.3g}")
+    chk.notes["max_jump_between_radial_segments_m"] = wseg
     chk.count(evaluations=nfield + n, distinct=nfield + n)
     chk.cov["rule"] = "field functions at random + near-edge points of 5 boxes (incl. Zmax > Rmax); every sampled skeleton point x every flux surface of every region of the orthogonal corpus grids"
     chk.notes["correspondence"] = {"field_values": nfield, "grid_points": n, "max_distance_from_reference_curve_m": worst}
